@@ -36,7 +36,8 @@ def c01(run):
                 'nests up to depth 300; non-trivial = the text is rejected (error path) or contains a string, comment, '
                 'apostrophe or non-ASCII character; distinct by text')
     reqs = ['parse ' + hx(t) for t, _ in cases]
-    m, im = run.tie(reqs, proj=lambda r: first_word(r) if first_word(r) in ('ok', 'err') else 'crash:' + r[:40],
+    # observable of THIS property: parsing returns (a program or an error) — which of the two is C02/C13's business
+    m, im = run.tie(reqs, proj=lambda r: 'returns' if first_word(r) in ('ok', 'err') else 'crash:' + r[:40],
                     functional=False, desc=lambda i: {'text': cases[i][0], 'kind': cases[i][1]})
     profiles = [('debug', im)]
     if run.tier == 'thorough':
